@@ -796,7 +796,59 @@ class SymZ:
                 if ctx.branch(self.t < (1 << i)):
                     return i
             return self.hi.bit_length()
+        if not _is_bv():
+            return SymBitLen(self)
         raise Unsupported("bit_length of a symbolic integer")
+
+
+class SymBitLen:
+    """bit_length() of an unbounded symbolic integer x: usable only in comparisons with concrete ints, which are exact
+    statements about |x| (bl <= k  <=>  |x| < 2^k).  Every other use is outside the model (Unsupported)."""
+    __slots__ = ("x",)
+
+    def __init__(self, x):
+        self.x = x
+
+    def _lt_pow(self, k):          # |x| < 2^k
+        if k < 0:
+            return z3.BoolVal(False)
+        b = z3.IntVal(1 << k)
+        return z3.And(self.x.t < b, self.x.t > -b)
+
+    def _k(self, o):
+        if isinstance(o, SymZ) and o._is_const():
+            o = o._cval()
+        if isinstance(o, bool) or not isinstance(o, int) or o > 8192:
+            raise Unsupported("bit_length of a symbolic integer")
+        return o
+
+    def __le__(self, o):
+        return SymBool(self._lt_pow(self._k(o)))
+
+    def __lt__(self, o):
+        return SymBool(self._lt_pow(self._k(o) - 1))
+
+    def __gt__(self, o):
+        return SymBool(z3.Not(self._lt_pow(self._k(o))))
+
+    def __ge__(self, o):
+        return SymBool(z3.Not(self._lt_pow(self._k(o) - 1)))
+
+    def __eq__(self, o):
+        k = self._k(o)
+        return SymBool(z3.And(self._lt_pow(k), z3.Not(self._lt_pow(k - 1))))
+
+    def __ne__(self, o):
+        k = self._k(o)
+        return SymBool(z3.Not(z3.And(self._lt_pow(k), z3.Not(self._lt_pow(k - 1)))))
+
+    __hash__ = None
+
+    def _unsupported(self, *a, **k):
+        raise Unsupported("bit_length of a symbolic integer")
+
+    __add__ = __radd__ = __sub__ = __rsub__ = __mul__ = __rmul__ = __floordiv__ = __rfloordiv__ = __mod__ = __index__ = \
+        __int__ = __bool__ = __neg__ = __lshift__ = __rlshift__ = __rshift__ = __rrshift__ = _unsupported
 
 
 def _bit(x):
